@@ -97,10 +97,12 @@ func confFuncs(c sqlterm.Config) []qsql.ConfigFunc {
 		pairs := make([]qsql.CoercePair, len(c.Coerce))
 		for i, p := range c.Coerce {
 			pairs[i].Column = p.Column
-			if p.Kind == 1 {
+			switch p.Kind {
+			case 1:
 				pairs[i].Type = qsql.Int64ToBool
-			} else {
+			case 2:
 				pairs[i].Type = qsql.StringToFloat
+			default: // kind 0: the Type left out — qsql.CoercePair{Column: name}
 			}
 		}
 		fs = append(fs, qsql.Coerce(pairs...))
@@ -671,6 +673,20 @@ func caseRead(s *hlib.Suite, r *hlib.Rng) {
 		if r.Chance(1, 3) {
 			c.Coerce = append(c.Coerce, sqlterm.Coerce{Column: "missing", Kind: 1 + r.Intn(2)})
 		}
+		// pairs WITHOUT function (kind 0 = qsql.CoercePair{Column: name}, the Type left out; defect F26): for a
+		// column of the result set (the read must report an error as soon as there is a row; placed anywhere among
+		// the other pairs, so that it may be replaced by a later pair for the same column or replace an earlier one)
+		// and for an absent column (never looked at)
+		if r.Chance(1, 4) {
+			at := r.Intn(len(c.Coerce) + 1)
+			p := sqlterm.Coerce{Column: names[r.Intn(len(names))], Kind: 0}
+			c.Coerce = append(c.Coerce[:at], append([]sqlterm.Coerce{p}, c.Coerce[at:]...)...)
+		}
+		if r.Chance(1, 5) {
+			at := r.Intn(len(c.Coerce) + 1)
+			p := sqlterm.Coerce{Column: "absent", Kind: 0}
+			c.Coerce = append(c.Coerce[:at], append([]sqlterm.Coerce{p}, c.Coerce[at:]...)...)
+		}
 	}
 	db := fakedb.New()
 	db.Cols, db.Rows = names, rows
@@ -701,6 +717,43 @@ func caseRead(s *hlib.Suite, r *hlib.Rng) {
 	if c.HasCoerce {
 		s.Count("read/coerce")
 		kinds, late, plain := map[int]bool{}, false, false
+		nilHit, nilAbsent, nilReplaced := false, false, false
+		for _, p := range c.Coerce {
+			if p.Kind != 0 {
+				continue
+			}
+			inSet, last := false, 0
+			for _, n := range names {
+				if n == p.Column {
+					inSet = true
+				}
+			}
+			for _, q := range c.Coerce {
+				if q.Column == p.Column {
+					last = q.Kind
+				}
+			}
+			switch {
+			case !inSet:
+				nilAbsent = true
+			case last == 0:
+				nilHit = true
+			default:
+				nilReplaced = true
+			}
+		}
+		if nilHit {
+			s.Count("read/coerce/no-function/column-in-result-set")
+			if len(rows) > 0 {
+				s.Count("read/coerce/no-function/column-in-result-set/with-rows")
+			}
+		}
+		if nilReplaced {
+			s.Count("read/coerce/no-function/replaced-by-later-pair")
+		}
+		if nilAbsent {
+			s.Count("read/coerce/no-function/absent-column")
+		}
 		for _, n := range names { // last pair for a name wins
 			k := 0
 			for _, p := range c.Coerce {
@@ -725,9 +778,9 @@ func caseRead(s *hlib.Suite, r *hlib.Rng) {
 			s.Count("read/coerce/mixed-forced")
 		}
 	}
-	_ = pv
 	if panicked {
 		desc["class"] = "sql-coerce-null-panic"
+		desc["panic"] = fmt.Sprint(pv)
 	}
 	s.Add(fmt.Sprintf("SqlRead %s %s %s %s %s %s", c.Coq(), sqlterm.ResultSet(names, rows), sqlterm.Faults(fp, fq, fr), ft, pt, sqlterm.Obs(panicked, qf)), desc, len(rows) > 0)
 }
@@ -778,7 +831,7 @@ func main() {
 	s.Rule = "insert: random name lists (0..12, special characters, invalid names) x dialects (escape 0, \", `, non-ASCII and invalid runes; ? and $i) through sqlhook.Insert; " +
 		"write: frames of 1..5 columns of all five column types (nil strings, NaN payloads, +-0, extremes, enum) derived by Sort/Filter/Slice, written through the recording driver, a third with an Exec refused at a random position; " +
 		"scan: one Column fed a value sequence (typed with NULL patterns none/leading/trailing/all/random, a fifth with foreign values), coercions, precision with oracle tables for float.Fixed and ParseFloat; " +
-		"read: canned result sets (3/5 inside the quantifier of C19, the rest with duplicate/rejected names, NULLs in int/bool columns, mixed types), coercions incl. a missing column (half of the coercion cases: an int column with Int64ToBool and a numeric-text column with StringToFloat behind an uncoerced first column, pairs in either order), precision, a sixth with a driver fault; " +
+		"read: canned result sets (3/5 inside the quantifier of C19, the rest with duplicate/rejected names, NULLs in int/bool columns, mixed types), coercions incl. a missing column and pairs WITHOUT function (qsql.CoercePair{Column: name}, kind 0 in the case term: a quarter of the coercion cases for a column of the result set, a fifth for an absent one) (half of the coercion cases: an int column with Int64ToBool and a numeric-text column with StringToFloat behind an uncoerced first column, pairs in either order), precision, a sixth with a driver fault; " +
 		"round: ToSQL into the store then ReadSQL from it. Non-trivial = at least one row/name/value; distinct by Coq term."
 	r := hlib.NewRng(cfg.Seed)
 	for i := 0; i < cfg.N; i++ {
